@@ -188,7 +188,21 @@ def analyse_string_position(position, expose, tally, timeout_ms=60000):
                     r, m = common.check(tally, list(p.conds) + [contents, z3.Length(s.term) > 0], timeout_ms,
                                         label="render: literal spliced unquoted")
                     if r == "sat":
-                        res["findings"].append(("inject", "0) or print('PWNED') or (0", "string contents spliced into the code unquoted"))
+                        line = before.rsplit("\n", 1)[-1]
+                        if "#" in line:
+                            # inside a comment: harmless unless the literal can end the line.  CPython ends a physical line at
+                            # a bare carriage return too, and a DSL string may contain one (the solver is asked)
+                            cr = z3.Contains(s.term, z3.StringVal("\r"))
+                            r2, m2 = common.check(tally, list(p.conds) + [contents, cr], timeout_ms,
+                                                  label="C13 render: a literal quoted in a comment can contain a line terminator")
+                            if r2 == "sat":
+                                res["findings"].append(("inject-search", ["\rprint('PWNED')\r#", "a\rb = 1\r#", "x\rraise SystemExit\r#"],
+                                                        "string contents spliced into a comment of the generated code; a carriage "
+                                                        "return ends the comment"))
+                        else:
+                            res["findings"].append(("inject-search", ["0) or print('PWNED') or (0", "0\nprint('PWNED')", "' + str(print('PWNED')) + '",
+                                                                      "\rprint('PWNED')\r#", "None if print('PWNED') else None"],
+                                                    "string contents spliced into the code unquoted"))
                     continue
                 frag = z3.Concat(z3.StringVal(q), s.term, z3.StringVal(q))
                 r, m = common.check(tally, list(p.conds) + [contents, z3.Not(z3.InRe(frag, struct_single_quoted(q)))],
